@@ -60,7 +60,7 @@ class Judge:
 
 
 def cmp_model(j, impl, model, in_fragment=True):
-    if model.startswith("unmodelled") or model.startswith("skipped") or model == "-":
+    if "unmodelled" in model or model.startswith("skipped") or model == "-":
         return
     if impl != model:
         if in_fragment:
@@ -162,7 +162,10 @@ def judge(prop, f, impl, model, spec):
         elif kind == "meta":
             judge_meta(j, f, impl, model, spec)
     elif prop == "C12":
-        judge_iter(j, f, impl, model, spec)
+        if kind == "meta":
+            judge_meta(j, f, impl, model, spec)
+        else:
+            judge_iter(j, f, impl, model, spec)
     elif prop == "C13":
         judge_meta(j, f, impl, model, spec)
     elif prop == "C14":
@@ -274,7 +277,7 @@ def judge_meta(j, f, impl, model, spec):
     j.nontrivial = a not in ("seq:", "cerr")
     # the whitespace/abbreviation pairs range over arbitrary generated expressions: the model is
     # only claimed for their parse trees and plans; value differences are observations
-    cmp_model(j, impl, model, in_fragment=(mode in ("ast", "plan") or f[0].startswith("C13")))
+    cmp_model(j, impl, model, in_fragment=(mode in ("ast", "plan") or f[0].startswith("C13") or f[0].startswith("C12")))
 
 
 def judge_iter(j, f, impl, model, spec):
